@@ -159,7 +159,7 @@ def dump_variants(rng, it, accepted):
     if vl > 0:
         out.append(dict(minv=vl))
     out.append(dict(minv=vl + 1))
-    if all(int(re.match(r"G(\d+)x(\d+)", v).group(2)) <= 96 for _, v in accepted) and vl > 0:
+    if all(int(re.match(r"G(\d+)x(\d+)", v).group(2)) <= 1024 for _, v in accepted) and vl > 0:
         vb = P.xs_bytes(int(m.group(1)), vl)
         out.append(dict(vp=vb[:max(1, vl // 2)]))
         out.append(dict(vp=b"\x00"))
